@@ -321,6 +321,21 @@ Lemma inj_stage_defined_refuted :
     inj_stage true false false life k p infl prod = Err E_UNBOUND.
 Proof. exists 1%nat, 1%nat, 1000, 100, (Vals [1500]), [1500]. repeat split. lia. Qed.
 
+Lemma second_pass_type_error d i life k p infl prod :
+  d || i = true -> inj_stage_second_pass true d i life k p infl prod = Err E_TYPE.
+Proof. intros H. unfold inj_stage_second_pass. now rewrite H. Qed.
+
+Lemma second_pass_same life k p infl d i prod : inj_stage_second_pass false d i life k p infl prod = prod.
+Proof. reflexivity. Qed.
+
+(* the first pass succeeds, the second one does not *)
+Lemma second_pass_defined_refuted :
+  exists d i life k p infl prod l,
+    inj_stage true d i life k p infl prod = Vals l /\ inj_stage_second_pass true d i life k p infl prod = Err E_TYPE.
+Proof.
+  exists true, false, 1%nat, 2%nat, 9000, 100, (Vals [1; 1]). eexists. split; vm_compute; reflexivity.
+Qed.
+
 (* ---------- soundness of the reflective checkers ---------- *)
 Lemma nonincreasing_sound l : nonincreasing l = true ->
   forall t, (S t < length l)%nat -> nth (S t) l 0 <= nth t l 0.
